@@ -9,7 +9,7 @@ from hypothesis import strategies as st
 from vlib import gens
 from vlib.core import unchanged, Prop, Sub, Violation, calling, check
 from vlib.oracles import bvls, lp_dist, lp_extents, lp_margin
-from vlib.systems import whole_number_bounds, Sys, matrix_system, target_rows
+from vlib.systems import whole_number_bounds, Sys, matrix_system, target_rows, whole_number_model
 from props.c15_units import twin_system
 
 
@@ -139,6 +139,26 @@ def body_extent(case):
             labs.append("interior")
         if sv.n - sv.m >= 2:
             labs.append("nt:surplus>=2")
+    # whole-number problem (counts): targets, K and baseline as integer-typed arrays give the extents of the same numbers as floats,
+    # and those are the LP extents (the target is the rounded capture of a row's interior intensities, kept only if still in the gamut)
+    wm = whole_number_model(sv)
+    r0 = case["rows"][0]
+    if wm is not None and r0.get("x") is not None and (s_, c_) == (1.0, 1.0):
+        from dreye.api.convex import range_of_solutions as _range
+
+        sv2 = Sys(dict(case["system"], K=(None if wm[1]["K"] is None else np.asarray(wm[1]["K"]).tolist()),
+                       baseline=(wm[1]["baseline"] if np.ndim(wm[1]["baseline"]) == 0 else np.asarray(wm[1]["baseline"]).tolist())))
+        whole = np.round(sv2.predict(np.asarray(r0["x"], dtype=float)))
+        t2 = lp_margin(sv2.Ap, sv2.basep, sv2.lb, sv2.ub, whole)
+        if t2 is not None and t2 >= 1e-6:
+            with calling("range_of_solutions of a whole-number problem (int64 / float64)"):
+                oi = _range(whole.astype(np.int64), sv.A, lb=sv.lb_arg(), ub=sv.ub_arg(), **wm[0])
+                of = _range(whole.copy(), sv.A, lb=sv.lb_arg(), ub=sv.ub_arg(), **wm[1])
+            for a_, b_ in zip(oi[:2], of[:2]):
+                check(np.all(np.abs(np.asarray(a_, dtype=float) - np.asarray(b_, dtype=float)) <= 1e-9 * (sv.ub - sv.lb)), "extent:integer-typed-problem-differs",
+                      f"target {whole.tolist()}, K, baseline as integers give {np.asarray(a_).tolist()}, as floats {np.asarray(b_).tolist()}")
+            assert_extents(sv2, whole, np.asarray(oi[0], dtype=float).reshape(-1), np.asarray(oi[1], dtype=float).reshape(-1), 1e-7, "extent:whole", "whole-number")
+            labs.append("whole-number-twin")
     return labs
 
 
